@@ -359,6 +359,10 @@ func init() {
 	}
 	ext("C18", "larking's interceptor constructors NewUnaryContext / NewStreamContext through the gRPC entry for a unary method and each streaming shape: full method name, streaming flags, and the handler runs under the returned context",
 		HarnessSpec{Name: "VerifH_context_helpers", Covers: []string{"unary", "client-stream", "server-stream", "bidi"}})
+	for _, id := range []string{"C05", "C09"} {
+		ext(id, "error bodies when the request's Content-Type is not a registered codec (absent, image/jpeg, text/plain with parameters, form post) x Accept absent / registered / unregistered x 16 codes: a response with the documented status and a Status body labelled with a registered codec's type",
+			HarnessSpec{Name: "VerifH_error_body_ctype", Covers: []string{"handler-failed"}})
+	}
 	wkt := "well-known-type parameters (google.protobuf wrappers, FieldMask, Duration, Timestamp) through the real parseQueryParams / parseParam / quote / params.set: the empty text for each of 10 types, a menu of 40 boundary texts (non-BMP strings, 32/64-bit limits, duration range and Go-style units, leap days, RFC 3339 range), symbolic texts of 1..3 (quick) / 1..4 (thorough) bytes for StringValue, BoolValue, Int32Value / UInt32Value, BytesValue, FieldMask; protojson's scalar forms modelled (model_wkt.go), generated messages seen through a fake reflection view"
 	for _, id := range []string{"C03", "C09", "C01"} {
 		ext(id, wkt, HarnessSpec{Name: "VerifH_params_wkt", Covers: []string{"empty-value", "menu-accepted", "menu-rejected", "string-wrapper", "bool-wrapper", "int-wrapper", "int-wrapper-rejected", "bytes-wrapper", "fieldmask", "fieldmask-rejected"}})
